@@ -38,7 +38,9 @@ pub fn calendar_strategy() -> BoxedStrategy<(Calendar, Vec<Date>, Date, Date)> {
                 let h = hol[k % hol.len()].wrapping_mul(31).wrapping_add((k as u16).wrapping_mul(7919));
                 if !weekend && h % 25 != 0 {
                     let x = (h as u32).wrapping_mul(2654435761u32.wrapping_add(k as u32)) % 3500;
-                    let v = if d.year() >= 2017 { format!("0.{:04}", 6500 + x) } else { format!("1.{:04}", 100 + x) };
+                    // both series on both sides of parity (the noon rate was below 1 in 2011-2012; the daily CAD->USD value exceeds 1 whenever the Canadian dollar is the stronger one)
+                    let t = if d.year() >= 2017 { 6500 + x * 46 / 35 } else { 9000 + x * 46 / 35 };
+                    let v = format!("{}.{:04}", t / 10000, t % 10000);
                     cal.days.insert(d, Obs::Published(v));
                 }
                 d = d.next_day().unwrap(); k += 1;
@@ -205,7 +207,7 @@ fn check_rows(c: &RowCase, obs: &mut O) -> Verdict {
 }
 
 pub fn def() -> PropDef {
-    let mut d = PropDef::new("C12", "generated Bank of Canada publication calendars over 2-4 consecutive years starting 2014-2016 (so they span the 2016/2017 series change): weekdays with random holidays, exact gaps of 5,6,7,8,9,12 days, a gap across New Year, optionally a year without data, malformed observations (zero, negative, text, missing value, wrong types, junk entries), served as valet JSON by a fake HTTP endpoint; 'today' anywhere in the span (remote data up to yesterday or today); a third of the runs inherit the cache of an earlier run of the product (half of those as the CLI's rates-<year>.csv files in a scratch directory, half in memory); 8-60 look-ups per calendar at gap edges +-10 days, year edges, today-2..today+2 and random dates, compared with a 15-line reference function (day's rate, else latest within 7 days before if the date is in the past, else error; daily series inverted with the same Decimal division). A second sub-check feeds rows (USD/CAD/EUR, trade and commission currency, with and without explicit rate) through the application and compares the rate each row got. Non-trivial = look-up on an unpublished day, or within 1 day of today, or whose look-back crosses a year boundary; rows: a USD row that needs the bank rate, or a run that must stop. Distinct = distinct case content.");
+    let mut d = PropDef::new("C12", "generated Bank of Canada publication calendars over 2-4 consecutive years starting 2014-2016 (so they span the 2016/2017 series change): weekdays with random holidays, exact gaps of 5,6,7,8,9,12 days, a gap across New Year, optionally a year without data, observations on both sides of parity in both series, malformed observations (zero, negative, text, missing value, wrong types, junk entries), served as valet JSON by a fake HTTP endpoint; 'today' anywhere in the span (remote data up to yesterday or today); a third of the runs inherit the cache of an earlier run of the product (half of those as the CLI's rates-<year>.csv files in a scratch directory, half in memory); 8-60 look-ups per calendar at gap edges +-10 days, year edges, today-2..today+2 and random dates, compared with a 15-line reference function (day's rate, else latest within 7 days before if the date is in the past, else error; daily series inverted with the same Decimal division). A second sub-check feeds rows (USD/CAD/EUR, trade and commission currency, with and without explicit rate) through the application and compares the rate each row got. Non-trivial = look-up on an unpublished day, or within 1 day of today, or whose look-back crosses a year boundary; rows: a USD row that needs the bank rate, or a run that must stop. Distinct = distinct case content.");
     d.assumptions = vec!["the fake endpoint follows the documented valet JSON schema; TLS / HTTP failures are not explored", "observations are served in date order, as the bank does"];
     d.subs.push(Box::new(Sub::<FxCase> { name: "lookup", cases_quick: 36_000, cases_thorough: 1_500_000, strategy: Box::new(strategy), to_json: FxCase::to_json, from_json: FxCase::from_json, check }));
     d.subs.push(Box::new(Sub::<RowCase> { name: "rows", cases_quick: 36_000, cases_thorough: 1_500_000, strategy: Box::new(row_strategy), to_json: |c| { let mut j = c.fx.to_json(); j["rows"] = JsonValue::Array(c.rows.iter().map(|r| JsonValue::Array(vec![r.0.as_str().into(), r.1.as_str().into(), r.2.as_str().into(), r.3.as_str().into(), r.4.as_str().into()])).collect()); j }, from_json: |v| Some(RowCase { fx: FxCase::from_json(v)?, rows: v["rows"].members().map(|r| (r[0].as_str().unwrap_or("").to_string(), r[1].as_str().unwrap_or("").to_string(), r[2].as_str().unwrap_or("").to_string(), r[3].as_str().unwrap_or("").to_string(), r[4].as_str().unwrap_or("").to_string())).collect() }), check: check_rows }));
